@@ -220,6 +220,7 @@ class Helper:
         self.ret = None                     # block: returned expr or None
         self.nested = False
         self.vararg = self.kwarg = None
+        self.vararg_tuple = False
         self.classify()
         self.finish_classify()
 
@@ -247,6 +248,12 @@ class Helper:
                             ok_uses.add(id(k.value))
             for x in ast.walk(fn):
                 if isinstance(x, ast.Name) and x.id == nm and id(x) not in ok_uses:
+                    # *args that is only read (iterated, indexed, measured) is
+                    # the tuple of the extra arguments of the call
+                    if nm == self.vararg and isinstance(x.ctx, ast.Load) and not any(
+                            isinstance(y, ast.Lambda) for y in ast.walk(fn)):
+                        self.vararg_tuple = True
+                        continue
                     return
         if not self.body or len(list(ast.walk(fn))) > 600:
             return
@@ -495,6 +502,11 @@ class Inliner:
                 return None
             bind[k.arg] = k.value
         self.extra = (extra_pos, extra_kw)
+        if h.vararg and h.vararg_tuple:
+            if any(isinstance(a, ast.Starred) for a in extra_pos):
+                return None
+            tup = ast.Tuple(elts=list(extra_pos), ctx=ast.Load())
+            bind[h.vararg] = ast.fix_missing_locations(ast.copy_location(tup, call))
         for p in params:
             if p not in bind:
                 d = h.defaults.get(p)
